@@ -97,6 +97,9 @@ class BasePath(safe_str.safe_string):
 
         drive = drive.replace('\\', '/')
         path, isdir = cls.__normpath(path)
+        if drive and path.startswith(posixpath.sep * 2):
+            # `posixpath.normpath` preserves exactly two leading slashes.
+            path = path[1:]
         return drive, path, isdir
 
     @classmethod
@@ -124,7 +127,8 @@ class BasePath(safe_str.safe_string):
     def parent(self):
         if not self.suffix:
             raise ValueError('already at root')
-        return type(self)(posixpath.dirname(self.suffix), self.root,
+        drive, path = ntpath.splitdrive(self.suffix)
+        return type(self)(drive + posixpath.dirname(path), self.root,
                           self.destdir, directory=True)
 
     def append(self, path):
